@@ -10,14 +10,15 @@ def _case_key(case, kind):
 
 CFG = {
     "ready": True,
-    "level_text": "Executable specification + proof of the kernel links: on every run the encoder's own reconstruction planes (verif hook, serial and parallel encoder paths) are compared bit-exactly with what the extracted RFC 6386 specification decoder (Vp8Spec.decode_unfiltered, written in Gallina, independent of the Go code) reconstructs from the emitted bytes before the loop filter, with the Go decoder's pre-filter planes, and - at FilterStrength 0 - with webp.Decode's planes; dimensions are compared with the source. Coq theorems (all inputs) link the two reconstruction paths at kernel level: encoder inverse transform = decoder inverse DCT + prediction, encoder quantiser step sizes = decoder dequantisation factors for every index and delta, skipped macroblocks reconstruct the prediction, every coded level has exactly one token.",
+    "level_text": "Proof of no-drift for the encoder data-path model (C06_no_drift: decode_unfiltered(emit s) = encoder reconstruction, via the frame emit/decode round trip C04_vp8_emit_decode and the macroblock step C06_enc_mb_eq_dec) + executable specification: on every run the encoder's own reconstruction planes (verif hook, serial and parallel encoder paths) are compared bit-exactly with what the extracted RFC 6386 specification decoder (Vp8Spec.decode_unfiltered, written in Gallina, independent of the Go code) reconstructs from the emitted bytes before the loop filter, with the Go decoder's pre-filter planes, and - at FilterStrength 0 - with webp.Decode's planes; dimensions are compared with the source. Coq theorems (all inputs) link the two reconstruction paths at kernel level: encoder inverse transform = decoder inverse DCT + prediction, encoder quantiser step sizes = decoder dequantisation factors for every index and delta, skipped macroblocks reconstruct the prediction, every coded level has exactly one token.",
     "level_note": "The whole-frame statement no_drift (Vp8EncPath.no_drift_statement) is NOT proved: there is no Gallina model of the encoder's frame loop (mode choice, token recording, context export); it is evaluated by execution on generated pictures x options. Trusted: Coq kernel, extraction, OCaml glue, Go harness, translator, the verif hook returning the encoder planes.",
     "technique": "executable Gallina specification decoder run on the encoder's output vs the encoder's reconstruction (hook); Rocq proofs of the kernel-level links (finite complete sweeps where tables are involved)",
     "notes": [
+        "three model cases per encoder output: recon (specification decoder's pre-filter planes of the bytes = hook planes), reemit (Vp8SynParse.parse_syntax recovers header flags, modes and quantised levels from the bytes; Vp8FrameRT.emit_key_frame = syntax emitter + Go BoolWriter model + assembleFrame layout must reproduce the encoder's bytes exactly: ties the emission half of the encoder model to the code), encrecon (Vp8NoDrift.enc_frame, the encoder-side reconstruction model, on the recovered choices = hook planes: ties the reconstruction half).",
         "generators: pictures x options (serial and forced-parallel), a rate-control family (TargetSize / TargetPSNR x Pass 1,2,3,4,6,10, targets placed around the picture's own size so the search converges early in some runs and runs out of passes in others), and wide-then-narrow encode pairs through the pooled row-parallel state (one goroutine, GC held off, textured content, Method >= 3, >= 4 macroblock rows).",
     ],
     "partial": [
-        "no_drift (for all images, options and encoder choices: decode_unfiltered(bytes) = encoder reconstruction) is stated as Vp8EncPath.no_drift_statement and not proved; the four theorems are the kernel-level lemmas such a proof would use (hence the _partial suffix); serial_eq_parallel_recon and token_record_eq_emit are not modelled, they are covered by execution (forced serial and forced parallel runs both compared with the specification decoder)",
+        "C06_no_drift is proved for the encoder data-path MODEL (Vp8NoDrift.enc_frame: choices = header, modes, quantised levels; emission through Vp8FrameRT.emit_key_frame = syntax emitter + Go BoolWriter model + assembleFrame layout; reconstruction by enc_recon_mb in raster order from the encoder's own reconstructed neighbours). What the model abstracts and execution covers instead: how the Go encoder arrives at its choices (analysis, RD search, trellis, rate control), that its token recording equals the model emitter (token_record_eq_emit), that its context fill for prediction equals mk_edges of its own reconstruction (the C06-te7 class), serial_eq_parallel_recon, and the hypotheses wf_frame_syn/choices_ok themselves (levels within +-2114, skip only without levels) are not proved of the Go encoder. The four *_partial theorems are the kernel lemmas the proof uses.",
     ],
     "trusted_base": ["modelled, not verified: dsp.iTransformOne, lossy.setupSegment / writeQuantParams; the encoder's frame loop, RD search and token recording are not modelled (validated per run through the hook planes)"],
     "assumptions": ["the hook's configuration code (verifLossyConfig) is kept identical to encode.go by the translator (C20's obligation); the hook's bytes are compared with webp.Encode's on every case"],
